@@ -1,6 +1,7 @@
 #!/usr/bin/env python3
 """Copy confirmed seeded changes from /tmp/mut/<ID>.out/<V>/ into /verif/seeded/<ID>-<V>/ with meta.json."""
 import json, os, re, shutil, sys, glob
+SUMMARY = json.load(open('/verif/tools/seed_summaries.json'))
 res = {}
 cur = None
 for f in sorted(glob.glob('/tmp/mut/results*.txt')):
@@ -27,6 +28,7 @@ for key, r in res.items():
     meta = {
         'id': f'{pid}-{v}',
         'breaks_property': pid,
+        'summary': SUMMARY.get(f'{pid}-{v}', ''),
         'origin': 'independent sub-agent given only the property text and a scratch worktree of /repo',
         'needs_to_manifest': notes[:1500],
         'confirmed_by': 'tools/seed_confirm.sh in a scratch worktree outside /repo and /verif: ' + r['confirm'].split('::')[1].strip(),
@@ -35,5 +37,9 @@ for key, r in res.items():
         'not_detected_by': sorted(k for k, c in r['checks'].items() if c['exit'] == 0),
         'caught_by_own_property_check': r['checks'].get(pid, {}).get('exit') == 1,
     }
+    if os.path.exists(dst + '/meta.json'):
+        old = json.load(open(dst + '/meta.json'))
+        if 'history' in old:
+            meta['history'] = old['history']; meta['detected_by'].update({k: v for k, v in old['detected_by'].items() if k not in meta['detected_by']}); meta['not_detected_by'] = [x for x in meta['not_detected_by'] if x not in meta['detected_by']]; meta['caught_by_own_property_check'] = old['caught_by_own_property_check'] or meta['caught_by_own_property_check']
     json.dump(meta, open(dst + '/meta.json', 'w'), indent=1)
     print(dst, 'own caught:', meta['caught_by_own_property_check'])
